@@ -185,6 +185,8 @@ class LinearReconstructEveryK(TimeStepFilter):
                 time_indices,
             )
             time_indices = time_indices.at[: self.k].set(0)
+        # the fill above also clears saved steps below k (the forced last step when k >= time_steps_max)
+        time_indices = time_indices.at[self._save_time_steps].set(index_tmp)
         self = self.aset("_time_to_arr_idx", time_indices, create_new_ok=True)
         return self, self._array_size, input_shape_dtypes, {}
 
